@@ -544,9 +544,21 @@ def run_tridiag(rep, cprog):
         stores = [s_ for s_ in lp.body if isinstance(s_, CAssign) and isinstance(s_.target, ast.Subscript)]
         if not stores or any(not isinstance(s_, CAssign) for s_ in lp.body):
             raise AlgebraError('loop of line %d has other statements than assignments' % lp.line)
-        shift = T0.tr(stores[0].target.slice) - Rat.atom(lv)        # the first store goes to [lv + shift]
+        idx0 = T0.tr(stores[0].target.slice)
+        shift = idx0 - Rat.atom(lv)        # the first store goes to [lv + shift]
         if not shift.is_const():
-            raise AlgebraError('store index of line %d is not the loop variable plus a constant' % stores[0].line)
+            rev = idx0 + Rat.atom(lv)          # ... or to [C - lv]: the same loop run in the other direction over j = C - lv
+            if lv in rev.atoms():
+                raise AlgebraError('store index of line %d is neither the loop variable plus a constant nor a constant minus it' % stores[0].line)
+            Tr = Translator({lv: rev - Rat.atom(lv)}, index_hook=T0.index_hook)
+            out = []
+            for s_ in lp.body:
+                tgt = Tr.tr(s_.target).canon() if isinstance(s_.target, ast.Subscript) else unparse(s_.target)
+                op, val = s_.op, s_.value
+                if op == '=' and isinstance(val, ast.BinOp) and isinstance(val.op, (ast.Sub, ast.Add)) and unparse(val.left) == unparse(s_.target):
+                    op, val = ('-=' if isinstance(val.op, ast.Sub) else '+='), val.right
+                out.append((tgt.replace(lv, 'j'), op, Tr.tr(val)))
+            return ('down' if direction == 'up' else 'up'), rev - hi, rev - lo, out, lv
         T = cell_tr(lv, shift)
         out = []
         for s_ in lp.body:
